@@ -119,7 +119,7 @@ fn bmode_row(k: usize) -> Option<[u8; 9]> {
         _ => None,
     }
 }
-pub const TREES_USED: [usize; 17] = [0, 1, 2, 3, 4, 37, 55, 81, 102, 103, 104, 105, 106, 107, 108, 109, 110];
+pub const TREES_USED: [usize; 21] = [0, 1, 2, 3, 4, 37, 55, 81, 102, 103, 104, 105, 106, 107, 108, 109, 110, 111, 112, 113, 114];
 
 fn ref_tree(r: &mut Ref, k: usize) -> i32 {
     match k {
@@ -129,6 +129,10 @@ fn ref_tree(r: &mut Ref, k: usize) -> i32 {
         3..=102 => r.treed_read(&BMODE_TREE, &bmode_row(k).expect("bmode context not in the native table"), 0),
         103..=106 => r.treed_read(&TOKEN_TREE, &COEFF_ROWS[k - 103], 0),
         107..=110 => r.treed_read(&TOKEN_TREE, &COEFF_ROWS[k - 107], 2),
+        111 => r.treed_read(&TOKEN_TREE, &[255; 11], 0),
+        112 => r.treed_read(&TOKEN_TREE, &[255; 11], 2),
+        113 => r.treed_read(&TOKEN_TREE, &[1; 11], 0),
+        114 => r.treed_read(&TOKEN_TREE, &[1; 11], 2),
         _ => panic!("tree number"),
     }
 }
@@ -369,6 +373,24 @@ pub fn run(tier: &str, seed: u64, outdir: &str, extra: &[String]) {
             let keep = ops.len().saturating_sub(cut);
             ops.truncate(keep);
             one(&data, &ops, i % (if thorough { 4 } else { 8 }) == 0, &mut out, &mut st, &mut violations);
+        }
+        // (c) expensive single requests near the end of short partitions: tree reads that consume more than 32 bits in one
+        //     request (improbable branches at probability 1 / 255 nodes) crossing the last chunk boundary, so that one
+        //     abandoned speculative request needed two refills
+        let n = if thorough { 300_000 } else { 60_000 };
+        for i in 0..n {
+            let len = 4 + (i % 14) as usize;
+            let hi = rng.chance(1, 2);
+            let mut data: Vec<u8> = (0..len).map(|_| match rng.below(8) { 0 => rng.byte(), 1 => if hi { 0xfe } else { 1 }, _ => if hi { 0xff } else { 0 } }).collect();
+            if data[0] == 0xff { data[0] = 0xf0 | (rng.byte() & 0x0e); }
+            let mut ops = vec![];
+            for _ in 0..rng.below(5) { ops.push(gen_op(&mut rng)); }
+            let heavy = [111usize, 112, 113, 114, 111, 112, 113, 114, 104, 107, 0];
+            for _ in 0..(1 + rng.below(12)) {
+                ops.push(ArithOp::Tree(*rng.pick(&heavy)));
+                if rng.chance(1, 5) { ops.push(ArithOp::Bool(if hi { 255 } else { 1 })); }
+            }
+            one(&data, &ops, i % (if thorough { 8 } else { 12 }) == 0, &mut out, &mut st, &mut violations);
         }
     }
     let stats = format!(
